@@ -831,6 +831,106 @@ impl World {
         }
     }
 
+    /// Add/delete churn directly on the structure (the model is not concerned: no attribute
+    /// survives it; only the id counter of the SUT moves).
+    pub fn ev_churn_ids(&mut self, dim: &str, n: usize) {
+        use cosmian_cover_crypt::{EncryptionHint, QualifiedAttribute};
+        if self.auth.m.structure.dim(dim).is_none() {
+            return;
+        }
+        let s = &mut self.auth.msk.access_structure;
+        let r = guard(|| {
+            for _ in 0..n {
+                let qa = QualifiedAttribute::new(dim, "churn attribute");
+                if s.add_attribute(qa.clone(), EncryptionHint::Classic, None).is_err() {
+                    return false;
+                }
+                if s.del_attribute(&qa).is_err() {
+                    return false;
+                }
+            }
+            true
+        });
+        match r {
+            Err(p) => self.fail(Class::Panic, "churn/panic", p),
+            Ok(false) => self.fail(Class::OkErr, "add-attribute/expected-ok-got-err/churn", String::new()),
+            Ok(true) => {}
+        }
+        self.stats.probe("attribute-id-churn");
+        self.outcomes.push("churn".into());
+    }
+
+    /// The ML-KEM key of the secret that opens a hybridized encapsulation is replaced by the
+    /// ML-KEM key of another secret of the same user key: decapsulation must fail.
+    pub fn ev_pq_binding(&mut self, user: usize, slot: usize) {
+        if user >= self.users.len() || slot >= self.slots.len() {
+            return;
+        }
+        let Some((usk, mu)) = &self.users[user].usk else { return };
+        let s = &self.slots[slot];
+        if s.kind != SlotKind::Kem || !s.m.hybrid || s.bytes != s.orig || mu.unspecified || !mu.opens(&s.m) {
+            return;
+        }
+        let Ok(bytes) = usk.serialize() else { return };
+        let bytes = bytes.to_vec();
+        let Ok(w) = wire::parse_usk(&bytes) else { return };
+        // every secret whose (right, revision) is targeted by the encapsulation gets the ML-KEM
+        // key of some *other* hybridized secret of the key
+        let hybrid_secrets: Vec<(usize, usize)> = w
+            .rights
+            .iter()
+            .enumerate()
+            .flat_map(|(i, r)| r.secrets.iter().enumerate().filter(|(_, s)| s.hybrid).map(move |(k, _)| (i, k)))
+            .collect();
+        if hybrid_secrets.len() < 2 {
+            return;
+        }
+        let mut target_rights: Vec<Vec<u8>> = vec![];
+        for r in s.m.targets.keys() {
+            if let Some(b) = self.sut_right(r) {
+                target_rights.push(b);
+            }
+        }
+        let mut out = bytes.clone();
+        let mut changed = 0;
+        for (i, r) in w.rights.iter().enumerate() {
+            if !target_rights.contains(&r.right) {
+                continue;
+            }
+            for (k, sec) in r.secrets.iter().enumerate() {
+                if !sec.hybrid {
+                    continue;
+                }
+                // donor: a hybridized secret of a right that is not targeted
+                let Some((di, dk)) = hybrid_secrets.iter().copied().find(|(di, _)| !target_rights.contains(&w.rights[*di].right)) else { continue };
+                let _ = (i, k);
+                let d = &w.rights[di].secrets[dk];
+                let (ds, de) = (d.span.0 + 1 + wire::SC, d.span.1);
+                let (ts, te) = (sec.span.0 + 1 + wire::SC, sec.span.1);
+                if de - ds == te - ts && bytes[ds..de] != bytes[ts..te] {
+                    out[ts..te].copy_from_slice(&bytes[ds..de]);
+                    changed += 1;
+                }
+            }
+        }
+        if changed == 0 {
+            return;
+        }
+        let Ok(k2) = UserSecretKey::deserialize(&out) else { return };
+        let Ok(x) = XEnc::deserialize(&s.bytes) else { return };
+        self.stats.check("pq-binding");
+        self.stats.probe("ml-kem-key-swapped-in-user-key");
+        let r = guard(|| self.users[user].cc.decaps(&k2, &x));
+        self.outcomes.push("pq-binding".into());
+        if let Ok(Ok(Some(_))) = r {
+            self.fail(
+                Class::Flavour,
+                "decaps/hybridized-encapsulation-opens-without-the-right-ml-kem-key",
+                format!("slot {slot} user {user}: {changed} decapsulation keys replaced"),
+            );
+        }
+    }
+
     /// Encapsulations made from another OS thread on the same instance, one thread after the
     /// other (no race): freshness must hold across threads.
     pub fn ev_encrypt_other_thread(&mut self, e: usize, pol: &PolArg, n: u32) {
@@ -1254,7 +1354,7 @@ impl World {
             ops.push(UskOp::RenameRight { i, name: vec![0x7f] });
             ops.push(UskOp::RenameRight { i, name: vec![] });
             ops.push(UskOp::HybridToClassicShift { i });
-            for k in 0..max_chain {
+            for k in (0..max_chain).chain([99_999usize, 50_000]) {
                 ops.push(UskOp::DropSecret { i, k });
                 ops.push(UskOp::DupSecret { i, k });
                 ops.push(UskOp::SwapSecrets { i, k });
@@ -1319,14 +1419,28 @@ impl World {
     }
 
     pub fn ev_audit(&mut self) {
+        // every current key x every stored object, within a work budget: the cost of one read is
+        // about (secrets in the key) x (components of the encapsulation); beyond the budget every
+        // k-th pair is read (deterministically)
+        let mut pairs: Vec<(usize, usize, usize)> = vec![];
         for u in 0..self.users.len() {
-            if self.users[u].usk.is_none() {
+            let Some((_, mu)) = &self.users[u].usk else { continue };
+            let kw: usize = mu.rights.values().map(|c| c.len()).sum::<usize>().max(1);
+            for s in 0..self.slots.len() {
+                pairs.push((u, s, kw * self.slots[s].m.targets.len().max(1)));
+            }
+        }
+        let total: usize = pairs.iter().map(|p| p.2).sum();
+        let stride = total.div_ceil(60_000).max(1);
+        if stride > 1 {
+            self.stats.probe("audit-sampled");
+        }
+        for (i, (u, s, _)) in pairs.iter().enumerate() {
+            if i % stride != 0 {
                 continue;
             }
-            for s in 0..self.slots.len() {
-                self.ev_read(u, s);
-                self.outcomes.pop();
-            }
+            self.ev_read(*u, *s);
+            self.outcomes.pop();
         }
         self.outcomes.push("audit".into());
     }
@@ -1625,6 +1739,10 @@ impl World {
                 }
                 if s.to_vec() == self.slots[slot].secret {
                     self.fail(Class::Recaps, "recaps/secret-not-renewed", String::new());
+                }
+                // "a new secret": also new with respect to every earlier re-encapsulation
+                if !self.fresh.entry("recaps-secret").or_default().insert(s.to_vec()) {
+                    self.fail(Class::Recaps, "recaps/secret-repeated-across-recaps", String::new());
                 }
                 let Ok(me) = mm.encaps_rights(&expected) else { return };
                 let Ok(b) = x.serialize() else { return };
